@@ -487,3 +487,52 @@ def replay_registry(r):
 CHECKS['C15'] = c15
 REPLAYERS['roundtrip'] = replay_roundtrip
 REPLAYERS['registry'] = replay_registry
+
+
+def c17(prop, pool, verdict, tier, seed):
+    from rtc import prop_c17
+    e1 = run_e1(prop, pool, verdict, tier, seed)
+    fz = run_fuzz(prop, pool, verdict, tier, seed)
+    e3 = prop_c17.arm_coverage()
+    for f in e3['failures']:
+        rp = write_replay(prop, 'arm-' + f['clause'], {'kind': 'render-arm', 'property': prop, 'obligation': 'BaseRenderer.render_block::' + f['clause'], 'detail': f})
+        verdict.violation(rp)
+    d = prop_c17.run(pool, tier, seed)
+    by = {}
+    for f in d['fails']:
+        by.setdefault(f['stage'].split('/')[0] + ':' + f['kind'], []).append(f)
+    for k, fs in sorted(by.items()):
+        f = min(fs, key=lambda x: (len(str(x['graph'])), str(x['graph'])))
+        rp = write_replay(prop, 'render-' + k, {'kind': 'render', 'property': prop, 'graph': f['graph'], 'payload': f.get('payload', 'plain'),
+                                                'stage': f['stage'], 'check': f['kind'], 'detail': f['detail'], 'failing_inputs_in_scope': len(fs)})
+        verdict.violation(rp)
+    cov = coverage_from(e1, fz, 'C17 has no deductive content beyond a finite arm-coverage check (E3: one instance of every block class rendered by both renderers). Bounded: the DOT '
+                        'source of SCFGRenderer (and ByteFlowRenderer for bytecode flows) parsed with a small statement grammar and compared with the hierarchy: one node per '
+                        'non-region block inside the cluster of its innermost region, one nested cluster per region, one solid edge per jump target and one dashed edge per back '
+                        'edge drawn to the innermost header, labels containing name / instructions or code / variable and table / assignments. rendering.py is tier B '
+                        '(external graphviz object, string formatting).')
+    cov['obligations'] += e3['obligations']
+    cov['discharged'] += e3['discharged']
+    cov['finite_domain'] = {'domain': e3['domain'], 'backend': 'finite-enumeration', 'obligations': e3['obligations']}
+    cov['evaluations'] = d['renders'] + fz['evaluations']
+    cov['distinct_nontrivial'] = d['nontrivial']
+    cov['rule'] = ('every closed CFG with <= %d nodes plus seeded random ones (plain / AST / bytecode payloads) rendered at 4 stage prefixes, plus 3 bytecode functions through both '
+                   'renderers; %d graphs; non-trivial = cycle or branch' % (d['exhaustive_nmax'], d['graphs']))
+    cov['exhaustive'] = True
+    cov['samples'] = cov['samples'] + d['samples'][:3]
+    return 'exploration', cov, e1['assumptions'] + ['the graphviz Python layer emits one statement per line (quoted labels may span lines); no dot binary is involved']
+
+
+def replay_render(r):
+    from rtc import prop_c17
+    if isinstance(r['graph'], str):
+        fs = [f for n, ff in prop_c17.byteflow_cases() for f in ff]
+    else:
+        fs = prop_c17.check_graph({k: tuple(v) for k, v in r['graph'].items()}, r.get('payload', 'plain'))
+    print('replay render: %s' % fs[:2])
+    return 1 if fs else 0
+
+
+CHECKS['C17'] = c17
+REPLAYERS['render'] = replay_render
+REPLAYERS['render-arm'] = lambda r: (1 if [f for f in __import__('rtc.prop_c17', fromlist=['x']).arm_coverage()['failures'] if f['clause'] == r['detail']['clause']] else 0)
